@@ -92,7 +92,7 @@ func (g *Gen) buildQuery(o *Obl, extraAssume string, wantModel bool, dropQuant b
 // through function values (which closure is it?) before the obligations are generated. A "no" (or a timeout) only means
 // that the general, case-splitting encoding is used instead.
 func (g *Gen) provable(reach, cond string) bool {
-	if g.dynUnknown >= 3 {
+	if g.dynGaveUp {
 		// the proof context no longer determines the callees (typically after a call with unknown effects): stop asking
 		return false
 	}
@@ -337,6 +337,10 @@ func (eng *Engine) dischargeAll(g *Gen, dir string, timeout time.Duration, worke
 				// broken proof context makes hundreds of them undecidable, each costing the full portfolio otherwise)
 				to = 2 * time.Second
 			}
+			if eng.isUnclaimedName(g.obls[i].name) && to > 3*time.Second {
+				// listed in unclaimed.json (not claimed, reported as such whatever the outcome): a short attempt only
+				to = 3 * time.Second
+			}
 			results[i] = eng.discharge(g, &g.obls[i], dir, i, to, false)
 			if r := results[i]; r != nil && !g.obls[i].probe && r.Status != "proved" {
 				atomic.AddInt32(&nfail, 1)
@@ -345,6 +349,21 @@ func (eng *Engine) dischargeAll(g *Gen, dir string, timeout time.Duration, worke
 	}
 	wg.Wait()
 	return results
+}
+
+var unclaimedOnce sync.Once
+var unclaimedNames map[string]bool
+
+func (eng *Engine) isUnclaimedName(name string) bool {
+	unclaimedOnce.Do(func() {
+		unclaimedNames = map[string]bool{}
+		var us []Unclaimed
+		readJSON(filepath.Join(eng.verifDir, "unclaimed.json"), &us)
+		for _, u := range us {
+			unclaimedNames[u.Obligation] = true
+		}
+	})
+	return unclaimedNames[name]
 }
 
 var hintsOnce sync.Once
